@@ -544,45 +544,58 @@ func c18R2(p *core.Prog, r *core.Report) {
 func c18R3(p *core.Prog, r *core.Report) {
 	const rule = "C18.R3"
 	r.Rule(rule, "backup before overwrite: the backup copy's source is the target reference, it is behind the 'backup configured' test and every path from that test to the overwriting copy passes it", 2)
-	// by role: the function of cmd/regsync with a source and a target reference that copies images
-	// (the overwriting copy and the backup copy live in the same function)
-	var fn *ssa.Function
-	var copies []*ssa.Call
-	for _, f := range pkgFuncs(p, "cmd/regsync") {
-		var cs []*ssa.Call
-		core.Calls(f, func(c ssa.CallInstruction) {
-			if cal := core.Callee(c); cal != nil && core.IsModMethod(cal, ".", "RegClient", "ImageCopy") {
-				if call, ok := c.(*ssa.Call); ok {
-					cs = append(cs, call)
-				}
-			}
-		})
-		nRef := 0
+	// by role: the function of cmd/regsync with a source and a target reference that copies images.
+	// The backup copy may live in a helper of the package that is handed the target reference; the
+	// function looked for is the one that is not such a helper of another candidate.
+	isCopy := func(c ssa.CallInstruction) bool {
+		cal := core.Callee(c)
+		return cal != nil && core.IsModMethod(cal, ".", "RegClient", "ImageCopy")
+	}
+	refParams := func(f *ssa.Function) []*ssa.Parameter {
+		var out []*ssa.Parameter
 		for _, pr := range f.Params {
 			if core.IsModNamed(pr.Type(), "types/ref", "Ref") {
-				nRef++
+				out = append(out, pr)
 			}
 		}
-		if len(cs) >= 1 && nRef == 2 && len(cs) > len(copies) {
-			fn, copies = f, cs
+		return out
+	}
+	cands := map[*ssa.Function][]*ssa.Call{}
+	for _, f := range pkgFuncs(p, "cmd/regsync") {
+		if f.Parent() != nil || len(refParams(f)) != 2 {
+			continue
+		}
+		var cs []*ssa.Call
+		core.Calls(f, func(c ssa.CallInstruction) {
+			if call, ok := c.(*ssa.Call); ok && isCopy(c) {
+				cs = append(cs, call)
+			}
+		})
+		if len(cs) > 0 {
+			cands[f] = cs
+		}
+	}
+	called := map[*ssa.Function]bool{}
+	for f := range cands {
+		core.Calls(f, func(c ssa.CallInstruction) {
+			if g := core.CalleeFn(c); g != nil && g != f && cands[g] != nil {
+				called[g] = true
+			}
+		})
+	}
+	var fn *ssa.Function
+	for _, f := range sortedFuncs(funcSetOf(cands)) {
+		if !called[f] && (fn == nil || len(cands[f]) > len(cands[fn])) {
+			fn = f
 		}
 	}
 	if fn == nil {
 		r.MissingAnchor(rule, "a function of cmd/regsync with source and target references that calls ImageCopy")
 		return
 	}
+	copies := cands[fn]
 	fname := p.FuncName(fn)
-	// refs: the two Ref parameters (source, target)
-	var refs []*ssa.Parameter
-	for _, pr := range fn.Params {
-		if core.IsModNamed(pr.Type(), "types/ref", "Ref") {
-			refs = append(refs, pr)
-		}
-	}
-	if len(refs) != 2 || len(copies) < 2 {
-		r.Undecided(rule, fname, "copies", p.Pos(fn.Pos()), fmt.Sprintf("expected source/target parameters and two ImageCopy calls, found %d parameters and %d calls", len(refs), len(copies)))
-		return
-	}
+	refs := refParams(fn)
 	srcP, tgtP := refs[0], refs[1]
 	isParam := func(v ssa.Value, pr *ssa.Parameter) bool {
 		return core.AllOrigins(core.Origins(v, core.SliceOpts{}), func(o core.Origin) bool { return o.Kind == core.OParam && o.Param == pr })
@@ -591,14 +604,42 @@ func c18R3(p *core.Prog, r *core.Report) {
 		return core.HasOrigin(core.Origins(v, core.SliceOpts{Through: safeRefThrough}), func(o core.Origin) bool { return o.Kind == core.OParam && o.Param == pr })
 	}
 	var mainCopy, backup *ssa.Call
+	var backupTgt ssa.Value // where the backup copy writes to, as seen in fn
 	for _, c := range copies {
 		s, t := core.CallArg(c, 2), core.CallArg(c, 3)
 		switch {
 		case hasParam(s, srcP) && isParam(t, tgtP):
 			mainCopy = c
 		case isParam(s, tgtP):
-			backup = c
+			backup, backupTgt = c, t
 		}
+	}
+	if backup == nil {
+		// a helper that is handed the target reference and copies from it
+		core.Calls(fn, func(c ssa.CallInstruction) {
+			h := core.CalleeFn(c)
+			call, isCall := c.(*ssa.Call)
+			if h == nil || !isCall || cands[h] == nil || h == fn {
+				return
+			}
+			for _, hc := range cands[h] {
+				si, ti := -1, -1
+				for i, hp := range h.Params {
+					if isParam(core.CallArg(hc, 2), hp) {
+						si = i
+					}
+					if isParam(core.CallArg(hc, 3), hp) {
+						ti = i
+					}
+				}
+				if si >= 0 && si < len(call.Call.Args) && isParam(call.Call.Args[si], tgtP) {
+					backup = call
+					if ti >= 0 && ti < len(call.Call.Args) {
+						backupTgt = call.Call.Args[ti]
+					}
+				}
+			}
+		})
 	}
 	if mainCopy == nil {
 		r.Undecided(rule, fname, "overwriting copy", p.Pos(fn.Pos()), "no ImageCopy(source, target) found")
@@ -608,7 +649,7 @@ func c18R3(p *core.Prog, r *core.Report) {
 		r.Violated(rule, fname, "backup copy", p.Pos(mainCopy.Pos()), "no ImageCopy whose source is the target reference: the previous image is not saved under the backup name")
 		return
 	}
-	r.Check(!isParam(core.CallArg(backup, 3), tgtP), rule, fname, "backup copy", p.Pos(backup.Pos()), "the backup copies the image the target currently points to (source = target ref) to a different reference")
+	r.Check(backupTgt == nil || !isParam(backupTgt, tgtP), rule, fname, "backup copy", p.Pos(backup.Pos()), "the backup copies the image the target currently points to (source = target ref) to a different reference")
 	// the backup-configured test: a branch on the Backup field of the step
 	var edges [][2]*ssa.BasicBlock
 	for _, b := range fn.Blocks {
@@ -1236,4 +1277,12 @@ func parallelGuarded(p *core.Prog, in ssa.Instruction, depth int) bool {
 		}
 	}
 	return true
+}
+
+func funcSetOf[T any](m map[*ssa.Function]T) map[*ssa.Function]bool {
+	out := map[*ssa.Function]bool{}
+	for f := range m {
+		out[f] = true
+	}
+	return out
 }
